@@ -58,7 +58,9 @@ func (p *Pool[T]) Put(x T, size int) {
 		return
 	}
 
-	if idx := (size - 1) / p.stepSize; idx < len(p.pool) {
+	// only keep objects whose size is exactly one of the size classes handed out by Get,
+	// otherwise Get could return an object smaller than the requested size.
+	if idx := (size - 1) / p.stepSize; idx < len(p.pool) && p.size(size) == size {
 		p.pool[idx].Put(x)
 	}
 }
